@@ -28,16 +28,17 @@ type Obligation struct {
 
 type Ctx struct {
 	*Program
-	Prop    string
-	Tier    string
-	Obs     []*Obligation
-	Anchors []string
-	Notes   []string
-	rule    string // current rule text
-	rid     string // current rule id prefix, e.g. "C07-R2"
-	sites   int    // call sites / constructs inspected
-	goT     map[*ssa.Function]bool
-	nnMemo  map[*ssa.Function]int
+	Prop     string
+	Tier     string
+	Obs      []*Obligation
+	Anchors  []string
+	Notes    []string
+	rule     string // current rule text
+	rid      string // current rule id prefix, e.g. "C07-R2"
+	sites    int    // call sites / constructs inspected
+	goT      map[*ssa.Function]bool
+	nnMemo   map[*ssa.Function]int
+	wrapMemo map[string]map[*ssa.Function]int
 }
 
 type lostAnchor struct{ what string }
